@@ -556,6 +556,17 @@ def m_slice_swap(it, args, callee, depth):
 ALG_MODELS["slice::<impl [T]>::swap"] = m_slice_swap
 
 
+def m_len(it, args, callee, depth):
+    v = A.deref_all(it, args[0])
+    if isinstance(v, tuple) and v[0] == "array":
+        return len(v[1])
+    return NotImplemented
+
+
+ALG_MODELS["$vec::Vec::<T, A>::len"] = m_len
+ALG_MODELS["$slice::<impl [T]>::len"] = m_len
+
+
 def m_mul_add(it, args, callee, depth):
     a, b, c = [A.deref_all(it, x) for x in args[:3]]
     return it.binop("Add", it.binop("Mul", a, b, "f32"), c, "f32")
